@@ -555,10 +555,10 @@ class FastSimulation(object):
         self.mems = {}
         self.regs = {}
         self.internal_names = _PythonSanitizer('_fastsim_tmp_')
-        # the generated function has local variables of its own: a wire must not take their names
+        # the generated function has local variables of its own (and calls int()): a wire must not take their names
         _is_python_name = self.internal_names.extra_checks
         self.internal_names.extra_checks = \
-            lambda s: _is_python_name(s) and s not in ('d', 'regs', 'outs', 'mem_ws')
+            lambda s: _is_python_name(s) and s not in ('d', 'regs', 'outs', 'mem_ws', 'int')
         # memories share the value dictionary with the wires: their keys must not be wire names
         self._mem_prefix = 'fs_mem'
         while any(w.name.startswith(self._mem_prefix) for w in block.wirevector_set):
